@@ -118,10 +118,16 @@ func (t *Term) selectBody() string {
 	idx := t.args[0]
 	var sb strings.Builder
 	n := len(t.tab.vals)
-	for i := 0; i < n-1; i++ {
-		fmt.Fprintf(&sb, "(ite (= %s %s) %s ", idx.ref(), bvLit(idx.w, uint64(i)), bvLit(t.w, t.tab.vals[i]))
+	lit := func(w int, v uint64) string {
+		if w == IntW {
+			return fmt.Sprint(v)
+		}
+		return bvLit(w, v)
 	}
-	sb.WriteString(bvLit(t.w, t.tab.vals[n-1]))
+	for i := 0; i < n-1; i++ {
+		fmt.Fprintf(&sb, "(ite (= %s %s) %s ", idx.ref(), lit(idx.w, uint64(i)), lit(t.w, t.tab.vals[i]))
+	}
+	sb.WriteString(lit(t.w, t.tab.vals[n-1]))
 	for i := 0; i < n-1; i++ {
 		sb.WriteString(")")
 	}
@@ -131,6 +137,18 @@ func (t *Term) selectBody() string {
 // selectTerm reads elems[idx-lo] (idx a 64-bit term known to be in [lo, lo+n)).
 func (r *Run) selectTerm(elems []Value, idx *Term, lo, n int) *Term {
 	ts := r.ts
+	if ts.intMode {
+		var res *Term
+		for i := lo + n - 1; i >= lo; i-- {
+			e := elems[i].(*Term)
+			if res == nil {
+				res = e
+			} else {
+				res = ts.Ite(ts.Eq(idx, ts.IConst64(int64(i))), e, res)
+			}
+		}
+		return res
+	}
 	allc := true
 	for i := lo; i < lo+n; i++ {
 		if !elems[i].(*Term).IsConst() {
